@@ -88,7 +88,7 @@ func main() {
 		if os.Getenv("C09_ONLY_FAKE") == "" {
 			reals = canonicalReal()
 			rb := c.Rand("real-scenarios")
-			nEmu, nTiming := c.N(50, 2000), c.N(30, 800)
+			nEmu, nTiming := c.N(50, 1500), c.N(30, 600)
 			if v := os.Getenv("C09_REAL_N"); v != "" { // development: "<emu>,<timing>"
 				fmt.Sscanf(v, "%d,%d", &nEmu, &nTiming)
 			}
